@@ -313,6 +313,28 @@ def exc_class(e):
     return 'FOREIGN:' + type(e).__name__
 
 
+def pinned_dir():
+    d = VERIF / 'pinned'
+    subs = sorted(x for x in d.iterdir() if x.is_dir()) if d.exists() else []
+    return subs[-1] if subs else None
+
+
+def run_pinned(module, function, cases, timeout=1800):
+    """Run a subject function of a harness module against the pinned snapshot of the package."""
+    if not cases:
+        return []
+    pd = pinned_dir()
+    if pd is None:
+        raise RuntimeError('no pinned snapshot under /verif/pinned')
+    env = dict(os.environ, PYTHONPATH=str(pd), PYTHONHASHSEED='0', PYTHONDONTWRITEBYTECODE='1')
+    p = subprocess.run([sys.executable, str(VERIF / 'harness' / 'worker.py'), module, function],
+                       input=json.dumps(cases), env=env, stdout=subprocess.PIPE, stderr=subprocess.PIPE,
+                       text=True, timeout=timeout)
+    if p.returncode:
+        raise RuntimeError('pinned worker failed: ' + p.stderr[-2000:])
+    return json.loads(p.stdout)
+
+
 # --------------------------------------------------------------------------- known findings
 def load_known():
     p = VERIF / 'known_findings.json'
